@@ -83,7 +83,9 @@ func main() {
 		"PhysMemMapper (all six entry points, range lists), UEFI.PhysAddrToOffset/OffsetToPhysAddr, consts.Calculate*, both isPhysAddr copies; " +
 		"B: CalcImageOffset on full-flash (descriptor + BIOS region, BIOS last / not last), coreboot (FMAP), bare BIOS region and unparseable images x address classes; " +
 		"C: NodeVisitor (fallback on/off, AddOffset, random stop answers), GetByGUID/Range/RegionType, UEFIGUIDFirst, UEFIFilesByType/ByName, VolumeOf, MemRanges, FITFirst/FITAll, ACMDate, IBB, PCR0_DATA on " +
-		"GALAGOPRO3, the synthetic Intel image, both behind a flash descriptor, tail truncations and parse-preserving byte mutations")
+		"GALAGOPRO3, the synthetic Intel image, both behind a flash descriptor, tail truncations and parse-preserving byte mutations; "+
+		"synthetic BIOS regions built from the PI layouts (few GUIDs used many times as file and volume names: inside zlib/LZMA-compressed sections, nested compressed sections, after them, in sibling and nested volumes; named/unnamed volumes, pad and raw files, non-processed sections); "+
+		"the synthetic Intel image with re-shaped Boot Policy / Key Manifests (IBB digest list in every order and composition: SHA1 first/last/absent/twice, other algorithms and odd buffer lengths in between; PostIBB/OBB hashes, extra segments, TXT/PM elements present or not, more KM hashes, manifests moved) for PCR0_DATA, incl. the digest-reference search as correspondence cases")
 }
 
 // ------------------------------------------------------------------ Part A
@@ -503,6 +505,21 @@ func imagesPart(ctx *gal.Ctx, fake, galago []byte) {
 		ims = append(ims, im)
 	}
 
+	// the synthetic Intel image with Boot Policy / Key Manifests of other shapes
+	for k := 0; k < ctx.Scale(36, 300); k++ {
+		b, descr, ok := manifestVariant(rng, fake, k)
+		if !ok {
+			ctx.Count("manifest-variant-not-built")
+			continue
+		}
+		im := image{name: fmt.Sprintf("fake with manifests #%d: %s", k, descr), data: b, onlyIntel: k%6 != 0, manifests: true}
+		if k%5 == 4 {
+			im.data, _ = withIFD(b, k%3, 0)
+			im.name += " behind a flash descriptor"
+		}
+		ims = append(ims, im)
+	}
+
 	var d23all []string
 	parsed := 0
 	for i, im := range ims {
@@ -528,15 +545,17 @@ func imagesPart(ctx *gal.Ctx, fake, galago []byte) {
 				nStop = 0
 			}
 		}
-		reported := r.walker(0, nStop)
-		if i < 2 || (!im.heavy && i%5 == 0) {
-			r.walker(int64(1<<30), 0)
-			if !im.heavy {
-				r.walker(-0x1000, 0)
+		if !im.onlyIntel {
+			reported := r.walker(0, nStop)
+			if i < 2 || (!im.heavy && i%5 == 0) {
+				r.walker(int64(1<<30), 0)
+				if !im.heavy {
+					r.walker(-0x1000, 0)
+				}
 			}
-		}
-		if reported != nil {
-			r.selectors(reported)
+			if reported != nil {
+				r.selectors(reported)
+			}
 		}
 		r.intel()
 		d23all = append(d23all, r.d23...)
